@@ -1,6 +1,8 @@
 pub mod common;
 pub mod conformance;
 pub mod c01;
+pub mod c06;
+pub mod c16;
 
 use std::fs;
 
@@ -12,6 +14,8 @@ use crate::pred::*;
 pub fn dispatch(ctx: &Ctx) -> bool {
     match ctx.property.as_str() {
         "C01" => c01::run(ctx),
+        "C06" => c06::run(ctx),
+        "C16" => c16::run(ctx),
         _ => return false,
     }
     true
